@@ -101,6 +101,50 @@ class _Builder:
             s.last_op = idx[-1] if idx else None
 
 
+def _lite_data(data):
+    """(source port, dest port) of a lite DATA packet that is not an acknowledgement, else None (only the first packet of a write)"""
+    if len(data) < 12 or data[0] != 0x80:
+        return None
+    tf = data[8] | (data[9] << 8)
+    if tf & 0xF != 2 or (tf >> 4) & (1 | 0x200):
+        return None
+    return data[5], data[6]
+
+
+class _Deferred:
+    """application sends waiting for their first write. `send` / `send_unreliable` pass one checkpoint (the substream's lock) before
+    their first write, so the call is replayed at the position of that write: the first DATA packet of that connection that is
+    neither a fragment still owed by an earlier send nor a retransmission (same bytes written before) — or, if the call wrote nothing,
+    at the connection's next application call / the end of the session."""
+
+    def __init__(self, fragment_size):
+        self.frag = max(1, fragment_size)
+        self.q, self.owed, self.seen = {}, {}, set()
+
+    def push(self, conn, tk, line, nbytes, reliable=True):
+        self.q.setdefault(conn, []).append((tk, line, max(1, -(-nbytes // self.frag)) if reliable else 1))
+
+    def on_data_write(self, conn, dest, data):
+        if (dest, data) in self.seen:
+            return []
+        self.seen.add((dest, data))
+        if self.owed.get(conn, 0) > 0:
+            self.owed[conn] -= 1
+            return []
+        if self.q.get(conn):
+            tk, line, n = self.q[conn].pop(0)
+            self.owed[conn] = n - 1
+            return [(tk, line)]
+        return []
+
+    def drain(self, conn=None):
+        out = []
+        for c in ([conn] if conn is not None else list(self.q)):
+            out += [(tk, line) for tk, line, n in self.q.get(c, [])]
+            self.q[c] = []
+        return out
+
+
 def _write_fate(log, i):
     """what became of the write logged at position i: 'ok' | 'break'"""
     local = log[i][2]
@@ -142,8 +186,23 @@ def build(sess, name="x"):
     creds = sess.creds
     nopen = 0
     end_tick = ticks(sess.end_time)
+    dfr = {"c": _Deferred(cfg.fragment_size), "s": _Deferred(cfg_s.fragment_size)}
+
+    def emit(key, items):
+        sd = sc if key == "c" else ss
+        for tk0, line in items:
+            if not sd.cut and not (key == "c" and sd.gone):
+                t1 = max(tk0, sd.last_tick)
+                b.advance(sd, key, t1)
+                b.add(line % t1, ("op", key, t1), sd)
+
+    def flush(key):
+        emit(key, dfr[key].drain())
+
     for i, e in enumerate(log):
         k = e[0]
+        if k == "app" and e[2] in dfr:
+            flush(e[2])
         if k == "app" and e[3] == "reconnect":
             end_tick = ticks(e[1]) - 1
             break
@@ -159,6 +218,8 @@ def build(sess, name="x"):
             if sd.cut:
                 continue
             tk = ticks(t)
+            if _lite_data(data) is not None:
+                emit(key, dfr[key].on_data_write(key, remote, data))
             if tk > sd.last_tick and not sd.gone:
                 b.advance(sd, key, tk)          # a write at an instant at which nothing was done to this endpoint: a timer
             if k == "swfail":
@@ -220,11 +281,10 @@ def build(sess, name="x"):
                 b.add("connect %s %d 1 10 %d %d %d %s" % (C, tk, rc[0], rc[1], rc[2], cr), ("op", "c", tk), sd)
                 sd.last_tick = max(sd.last_tick, tk)
             elif op in ("send", "sendu"):
-                b.advance(sd, side, tk)
                 if op == "send":
-                    b.add("send %s %d %s %d %s" % (ep, tk, conn, sub, hx(data)), ("op", side, tk), sd)
+                    dfr[side].push(side, tk, "send %s %%d %s %d %s" % (ep, conn, sub, hx(data)), len(data))
                 else:
-                    b.add("sendu %s %d %s %s" % (ep, tk, conn, hx(data)), ("op", side, tk), sd)
+                    dfr[side].push(side, tk, "sendu %s %%d %s %s" % (ep, conn, hx(data)), len(data), False)
             elif op == "preset":
                 b.add("preset %s %s %d %d" % (ep, conn, sub, data), ("setup2", None))
             elif op == "close":
@@ -243,6 +303,7 @@ def build(sess, name="x"):
                 b.advance(ss, "s", tk)
                 b.add("aexit %s %d %s" % (S, tk, srv_key), ("op", "s", tk), ss)
                 b.add("done %s %d %s" % (S, tk, srv_key), ("op", "s", tk), ss)
+    flush("c"); flush("s")
     if not sc.cut:
         b.advance(sc, "c", end_tick)
     if not ss.cut:
@@ -317,7 +378,7 @@ def compare(drv, sess, name="x", want_lines=False):
     return res
 
 
-def build_server(sess, name="m"):
+def build_server(sess, name="m", late_reads_after_timers=False):
     """op lines for the SERVER transport of a multi-client session over a stream transport (harness/multi_session.py and the
     attack scenarios built on it): every stream connection to the server (victims, hostile third parties), every chunk the server
     read from each, every application call of its handlers. Returns (lines, kinds, real, info) or None."""
@@ -338,15 +399,29 @@ def build_server(sess, name="m"):
     ss = b.side("s", S)
     rnd = (1, 0xABCDEF01, 0x5A)       # multi_session pins the library's random draws; lite: initial unreliable id 1
     log = sess.netlog
+    dfr = _Deferred(spec.fragment_size)
+    wrote_at = {}
+
+    def emit(items):
+        for tk0, line in items:
+            t1 = max(tk0, ss.last_tick)
+            b.advance(ss, "s", t1)
+            b.add(line % t1, ("op", "s", t1), ss)
+
     for i, e in enumerate(log):
         k = e[0]
         if ss.cut:
             break
+        if k == "app" and e[2] == "s":
+            emit(dfr.drain(e[4]))
         if k == "sopen" and e[3] == saddr:
             b.add("link %s %s %d 1" % (S, e[2][0], e[2][1]), ("setup2", None))
-        elif k in ("swrite", "swfail") and e[2] == saddr:
+        elif k in ("swrite", "swrite3", "swfail") and e[2] == saddr:
             _, t, local, remote, data = e
             tk = ticks(t)
+            pd = _lite_data(data)
+            if pd is not None:
+                emit(dfr.on_data_write((remote, pd[1], 10), remote, data))
             if tk > ss.last_tick:
                 b.advance(ss, "s", tk)
             if k == "swfail":
@@ -360,10 +435,15 @@ def build_server(sess, name="m"):
                     b.truncate(ss, "s")
                 continue
             b.real["s"].append((tk, "%s:%d" % remote, hx(data)))
+        elif k in ("swrite", "swrite3") and e[3] == saddr:
+            wrote_at[e[2]] = ticks(e[1])
         elif k == "sread" and e[2] == saddr:
             _, t, local, remote, data = e
             tk = ticks(t)
-            b.advance(ss, "s", tk)
+            # written at this very instant (a stream without latency): the read is the consequence of something that happened at this
+            # instant, the server's timers due now have fired before it. Written earlier (a stream that delivers later, by a timer of
+            # the event loop): as for datagrams, the read is handled before the timers due at the same instant
+            b.advance(ss, "s", tk if (wrote_at.get(remote, tk) >= tk or late_reads_after_timers) else tk - 1)
             b.add("dgram %s %d %s %d %s %d %d %d" % (S, tk, remote[0], remote[1], hx(data), rnd[0], rnd[1], rnd[2]), ("op", "s", tk), ss)
         elif k == "sclose" and saddr in (e[2], e[3]):
             peer = e[3] if e[2] == saddr else e[2]
@@ -375,17 +455,18 @@ def build_server(sess, name="m"):
             _, t, side, op, key, data = e
             tk = ticks(t)
             conn = "%s:%d:%d:%d" % (key[0][0], key[0][1], key[1], key[2])
-            b.advance(ss, "s", tk)
             if op == "send":
-                b.add("send %s %d %s 0 %s" % (S, tk, conn, hx(data)), ("op", "s", tk), ss)
+                dfr.push((key[0], key[1], 10), tk, "send %s %%d %s 0 %s" % (S, conn, hx(data)), len(data))
             elif op == "done":
+                b.advance(ss, "s", tk)
                 b.add("done %s %d %s" % (S, tk, conn), ("op", "s", tk), ss)
     if not ss.cut:
+        emit(dfr.drain())
         b.advance(ss, "s", ticks(sess.end_time))
     return b.lines, b.kinds, b.real, {"prefix": ["s"] if ss.prefix else []}
 
 
-def compare_server(drv, sess, same_tick_unordered=False, want_lines=False):
+def compare_server(drv, sess, same_tick_unordered=False, want_lines=False, late_variant=False):
     """replay of the server transport of a multi-client stream session: every write of the server (bytes, to which stream, instant,
     order) must be the model's; same_tick_unordered: writes at one instant are compared as a set"""
     bl = build_server(sess)
@@ -398,12 +479,40 @@ def compare_server(drv, sess, same_tick_unordered=False, want_lines=False):
     r, m = real["s"], tx["s"]
     if same_tick_unordered:
         r, m = sorted(r), sorted(m)
-    for i, (x, y) in enumerate(zip(r, m)):
-        if x != y:
-            diffs.append({"kind": "tx", "index": i, "real": x, "model": y}); break
-    else:
-        if len(r) != len(m):
-            diffs.append({"kind": "tx-count", "real_n": len(r), "model_n": len(m), "first_extra": (r[len(m):] or m[len(r):])[0]})
+    # per PRUDP connection: the exact sequence of writes (bytes, instant, order). Across connections the order of writes at one
+    # instant is not compared: handing a message to the application is a checkpoint in `process_data`, where the read loop of
+    # another stream connection or the handler of another connection may run (the model handles one read atomically)
+    def conn_of(x):
+        # (stream connection, server port, client port): one PRUDP connection (several may share a stream connection)
+        h = bytes.fromhex(x[2]) if x[2] != "-" else b""
+        return (x[1], h[5], h[6]) if len(h) >= 12 and h[0] == 0x80 else (x[1], -1, -1)
+    dests = sorted({conn_of(x) for x in r} | {conn_of(x) for x in m})
+    for d in dests:
+        rr, mm = [x for x in r if conn_of(x) == d], [x for x in m if conn_of(x) == d]
+        for i, (x, y) in enumerate(zip(rr, mm)):
+            if x != y:
+                diffs.append({"kind": "tx", "to": d, "index": i, "real": x, "model": y}); break
+        else:
+            if len(rr) != len(mm):
+                diffs.append({"kind": "tx-count", "to": d, "real_n": len(rr), "model_n": len(mm), "first_extra": (rr[len(mm):] or mm[len(rr):])[0]})
+        if diffs:
+            break
+    exact_order = (r == m)
+    if diffs and diffs[0]["kind"] in ("tx", "tx-count") and not late_variant:
+        # an exact tie between a read that arrived by a timer of the event loop and a timer of a connection: the real scheduler has
+        # already spawned the timer's task when the read is handled and runs it afterwards (e.g. a retransmission written after the
+        # DISCONNECT that ended the connection was acknowledged) — an interleaving the atomic model has in neither order. Recognised
+        # by replaying with the other order: if there the `advance` in front of a read at the instant of the first difference fires a
+        # timer at that very instant, the session is set aside as a tie race (counted, not compared)
+        d0 = diffs[0]
+        tk0 = (d0.get("real") or d0.get("first_extra"))[0] if d0["kind"] == "tx" else d0["first_extra"][0]
+        bl2 = build_server(sess, late_reads_after_timers=True)
+        if bl2 is not None:
+            l2, k2, _, _ = bl2
+            o2 = drv.batch(l2)
+            for j in range(len(l2) - 1):
+                if l2[j] == "advance ms %d" % tk0 and l2[j + 1].startswith("dgram ms %d " % tk0) and ("@%d " % tk0) in o2[j]:
+                    return {"ok": True, "skipped": True, "tie_race": True, "diffs": [], "lines": len(lines), "stream": True}
     # what the server's handlers received, per stream connection, must be what the model delivers there
     rd, md = {}, {}
     for e in sess.netlog:
@@ -421,7 +530,7 @@ def compare_server(drv, sess, same_tick_unordered=False, want_lines=False):
             if y[:len(x)] != x:
                 diffs.append({"kind": "deliver", "peer": a, "real": x[:3], "model": y[:3], "real_n": len(x), "model_n": len(y)})
     res = {"ok": not diffs, "diffs": diffs, "lines": len(lines), "stream": True, "prefix": info["prefix"],
-           "reads": sum(1 for l in lines if l.startswith("dgram ")), "writes": len(real["s"]),
+           "reads": sum(1 for l in lines if l.startswith("dgram ")), "writes": len(real["s"]), "exact_order": exact_order,
            "links": sum(1 for l in lines if l.startswith("link ") and l.endswith(" 1"))}
     if want_lines:
         res["trace"] = list(zip(lines, outs))
